@@ -9,8 +9,8 @@ use std::sync::{Arc, Mutex};
 use std::task::{Context, Poll, Waker};
 
 use passkey_authenticator::{
-    Authenticator, CredentialStore, Ctap2Api, DiscoverabilitySupport, StoreInfo, UserCheck,
-    UserValidationMethod,
+    extensions::HmacSecretConfig, Authenticator, CredentialStore, Ctap2Api, DiscoverabilitySupport,
+    StoreInfo, UserCheck, UserValidationMethod,
 };
 use passkey_types::{
     ctap2::{
@@ -178,6 +178,35 @@ fn main() {
     let log: Log = Arc::new(Mutex::new(Vec::new()));
     let rp = sc["request"]["rp_id"].as_str().unwrap_or("example.com").to_string();
 
+    if sc["op"] == "store_find" {
+        // lookup contract of a shipped store: one stored credential, one query
+        let mut pk = Passkey::mock(sc["stored_rp"].as_str().unwrap_or("a.example").to_string()).build();
+        pk.credential_id = vec![1u8; 16].into();
+        let ids: Option<Vec<webauthn::PublicKeyCredentialDescriptor>> = match sc["ids"].as_str() {
+            Some("match") => Some(vec![descriptor(&[1u8; 16])]),
+            Some("other") => Some(vec![descriptor(&[2u8; 16])]),
+            Some("other_then_match") => Some(vec![descriptor(&[2u8; 16]), descriptor(&[1u8; 16])]),
+            _ => None,
+        };
+        let q = sc["query_rp"].as_str().unwrap_or("a.example").to_string();
+        let mut polls = 0u64;
+        let r = if sc["store_kind"] == "memory" {
+            let mut m = passkey_authenticator::MemoryStore::new();
+            m.insert(pk.credential_id.clone().into(), pk);
+            block_on(m.find_credentials(ids.as_deref(), &q), 100, &mut polls)
+        } else {
+            let s: Option<Passkey> = Some(pk);
+            block_on(s.find_credentials(ids.as_deref(), &q), 100, &mut polls)
+        };
+        let out = match r {
+            Some(Ok(v)) => json!({"result": {"ok": v.len(), "rp_ids": v.iter().map(|p| p.rp_id.clone()).collect::<Vec<_>>()}, "log": []}),
+            Some(Err(e)) => json!({"result": {"err": u8::from(e)}, "log": []}),
+            None => json!({"result": "cancelled", "log": []}),
+        };
+        println!("E2REPLAY {}", out);
+        return;
+    }
+
     // credentials held by the scripted store
     let mut held = Vec::new();
     if let Some(list) = sc["store"]["held"].as_array() {
@@ -189,6 +218,15 @@ fn main() {
             if c["user_handle"].as_bool().unwrap_or(false) {
                 b = b.user_handle(Some(8));
             }
+            match c["hmac"].as_str() {
+                Some("uv_only") => {
+                    b = b.hmac_secret(passkey_types::StoredHmacSecret { cred_with_uv: vec![1u8; 32], cred_without_uv: None });
+                }
+                Some("both") => {
+                    b = b.hmac_secret(passkey_types::StoredHmacSecret { cred_with_uv: vec![1u8; 32], cred_without_uv: Some(vec![2u8; 32]) });
+                }
+                _ => {}
+            }
             let mut pk = b.build();
             pk.credential_id = vec![i as u8 + 1; 16].into();
             held.push(pk);
@@ -197,9 +235,22 @@ fn main() {
     let store = Store { script: sc["store"].clone(), log: log.clone(), held };
     let user = User { script: sc["user"].clone(), log: log.clone() };
     let mut auth = Authenticator::new(Aaguid::new_empty(), store, user);
+    let _ = &mut auth;
     if sc["config"]["counter"].as_bool().unwrap_or(false) {
         auth.set_make_credentials_with_signature_counter(true);
     }
+    let auth = match sc["config"]["hmac_secret"].as_str() {
+        Some("uv_only") => auth.hmac_secret(HmacSecretConfig::new_with_uv_only()),
+        Some("uv_only_mc") => auth.hmac_secret(HmacSecretConfig::new_with_uv_only().enable_on_make_credential()),
+        Some("without_uv") => auth.hmac_secret(HmacSecretConfig::new_without_uv()),
+        Some("without_uv_mc") => auth.hmac_secret(HmacSecretConfig::new_without_uv().enable_on_make_credential()),
+        _ => auth,
+    };
+    let mut auth = auth;
+    let prf_inputs = || passkey_types::ctap2::extensions::AuthenticatorPrfInputs {
+        eval: Some(passkey_types::ctap2::extensions::AuthenticatorPrfValues { first: [3u8; 32], second: None }),
+        eval_by_credential: None,
+    };
     let opts = make_credential::Options {
         rk: sc["request"]["rk"].as_bool().unwrap_or(false),
         up: sc["request"]["up"].as_bool().unwrap_or(true),
@@ -220,7 +271,10 @@ fn main() {
                     rp_id: rp.clone(),
                     client_data_hash: vec![7u8; 32].into(),
                     allow_list: list(&sc["request"]["allow_list"]),
-                    extensions: None,
+                    extensions: sc["request"]["prf_eval"].as_bool().unwrap_or(false).then(|| get_assertion::ExtensionInputs {
+                        hmac_secret: None,
+                        prf: Some(prf_inputs()),
+                    }),
                     options: opts,
                     pin_auth,
                     pin_protocol: None,
@@ -259,7 +313,11 @@ fn main() {
                         webauthn::PublicKeyCredentialParameters::default_algorithms()
                     },
                     exclude_list: list(&sc["request"]["exclude_list"]),
-                    extensions: None,
+                    extensions: sc["request"]["prf_eval"].as_bool().unwrap_or(false).then(|| make_credential::ExtensionInputs {
+                        hmac_secret: None,
+                        hmac_secret_mc: None,
+                        prf: Some(prf_inputs()),
+                    }),
                     options: opts,
                     pin_auth,
                     pin_protocol: None,
